@@ -16,18 +16,22 @@ VARIABLES l,        \* next line
           bal,      \* tracked balance of every account relative to trace start
           nonce,    \* tracked nonce of every account
           prenonce, \* tracked nonce of the sender before the event
-          applied   \* (sender, nonce) pairs already applied in this trace
+          applied,  \* (sender, nonce) pairs already applied in this trace
+          redeemed, \* free-storage markers (assigner, nonce) already redeemed in this trace
+          fresh     \* the event's free-storage marker had not been redeemed before
 
-vars == <<l, ev, bal, nonce, prenonce, applied>>
+vars == <<l, ev, bal, nonce, prenonce, applied, redeemed, fresh>>
 Null == [ev |-> "none"]
 
 TraceInit == l = 1 /\ ev = Null /\ bal = <<>> /\ nonce = <<>> /\ prenonce = 0 /\ applied = {}
+             /\ redeemed = {} /\ fresh = TRUE
 
 IsEvent(e) == l <= Len(Trace) /\ Trace[l].ev = e /\ l' = l + 1
 
 TraceReset ==
   /\ IsEvent("Reset")
   /\ ev' = Null /\ bal' = <<>> /\ prenonce' = 0 /\ applied' = {}
+  /\ redeemed' = {} /\ fresh' = TRUE
   /\ nonce' = IF "nonces" \in DOMAIN Trace[l] THEN PutPairs(<<>>, Trace[l].nonces, 1) ELSE <<>>
 
 (* Ledger!Summary specialised to tracked state: an accepted transaction    *)
@@ -38,6 +42,10 @@ TraceTxn ==
   /\ LET e == Trace[l] IN
        /\ ev' = e
        /\ prenonce' = Get(nonce, e.from, 0)
+       /\ LET mk == IF "free_assigner" \in DOMAIN e THEN <<e.free_assigner, e.free_nonce>> ELSE <<"", 0>> IN
+            /\ fresh' = (mk \notin redeemed)
+            /\ redeemed' = IF e.class = "ok" /\ e.fn = "free_allocation_request" /\ "free_assigner" \in DOMAIN e
+                             THEN redeemed \cup {mk} ELSE redeemed
        /\ IF e.class = "rejected"
             THEN UNCHANGED <<bal, nonce, applied>>
             ELSE /\ nonce' = Add(nonce, e.from, 1)
@@ -47,7 +55,7 @@ TraceTxn ==
 TraceSkip ==
   /\ l <= Len(Trace) /\ Trace[l].ev \notin {"Reset", "Txn"}
   /\ l' = l + 1 /\ ev' = Trace[l]
-  /\ UNCHANGED <<bal, nonce, prenonce, applied>>
+  /\ UNCHANGED <<bal, nonce, prenonce, applied, redeemed, fresh>>
 
 TraceNext == TraceReset \/ TraceTxn \/ TraceSkip
 TraceSpec == TraceInit /\ [][TraceNext]_vars
@@ -115,7 +123,9 @@ C04_DebitAuth ==
      \/ (a = ev.from /\ -Delta(a) <= ev.value + ev.fee + SignedOK(a))
      \/ (a = ev.to /\ ev.type = "sc" /\ a # ev.from)
      \/ (a # ev.from /\ -Delta(a) <= SignedOK(a))
-     \/ (a = "owner" /\ ev.fn = "free_allocation_request" /\ ev.to = "storagesc" /\ -Delta(a) <= ev.free_tokens)
+     \/ (/\ a = "owner" /\ ev.fn = "free_allocation_request" /\ ev.to = "storagesc" /\ -Delta(a) <= ev.free_tokens
+         \* ... under a valid assigner marker that has not been redeemed before
+         /\ ("free_marker_ok" \in DOMAIN ev => (ev.free_marker_ok /\ fresh)))
 
 (* C05: nobody is debited more than he had; nothing wraps; a send larger   *)
 (* than the balance is rejected; a rejected txn changes no value node.      *)
